@@ -152,6 +152,8 @@ def run_check(prop, tier, seed, replay=None):
                         disagreements.append({'case': c.as_json(), 'model': mt, 'impl': it, 'what': d})
             # oracle on the implementation's observation (direct statement of the property)
             f = prop.oracle(c, it, ctx)
+            if c.op == 'seq' and 'expect' in c.meta and it != c.meta['expect']:
+                f = 'history %r answers %r, expected %r (%s)' % (c.args, it, c.meta['expect'], c.meta.get('note', ''))
             if f is not None:
                 cls = prop.classify(c, it, f)
                 if cls is not None:
